@@ -1030,6 +1030,10 @@ def draw_config(rng, tier):
         'corpus_start': rng.random() < (0.2 if tier == 'thorough' else 0.06),
     }
     cfg['aromatic'] = (not cfg['corpus_start']) and rng.random() < 0.07
+    cfg['joined_start'] = (not cfg['corpus_start']) and (not cfg['aromatic']) and rng.random() < 0.25
+    if cfg['joined_start']:
+        cfg['max_handles'] = max(2, cfg['max_handles'])
+        cfg['max_atoms'] = 28
     if cfg['aromatic']:
         cfg['max_handles'] = max(2, cfg['max_handles'])
     if cfg['corpus_start']:
@@ -1213,8 +1217,21 @@ def generate_and_run(seed, tier, probes):
     try:
         n = cfg['n_steps']
         # first op: a seed molecule
-        for step in range(n + 1):
-            if step == 0:
+        prelude = []
+        if cfg.get('joined_start'):
+            # synthesised start: two seed molecules merged in place and joined by one bond (ring systems linked directly or by a
+            # chain, stereo centre next to a ring, ion pair bonded to a metal ...) - ordinary recorded steps, so they replay and shrink
+            w = st.workload
+            prelude = [{'op': 'new', 'seed': w.randrange(len(SEEDS)), 'c': w.randrange(1 << 30)},
+                       {'op': 'new', 'seed': w.randrange(len(SEEDS)), 'c': w.randrange(1 << 30)},
+                       {'op': 'union', 'h': 0, 'g': 1, 'mode': 'ior', 'shift': w.randrange(1, 4), 'c': w.randrange(1 << 30)},
+                       {'op': 'drop', 'h': 1, 'c': 0},
+                       {'op': 'add_bond', 'h': 0, 'a': w.randrange(0, 6), 'b': w.randrange(58, 64), 'order': w.choice([1, 1, 1, 2, 8]),
+                        'c': w.randrange(1 << 30)}]
+        for step in range(n + 1 + len(prelude)):
+            if step < len(prelude):
+                op = prelude[step]
+            elif step == 0:
                 op = {'op': 'new', 'seed': st.workload.randrange(len(SEEDS)), 'c': st.workload.randrange(1 << 30)}
                 if cfg.get('corpus_start'):
                     op['corpus'] = st.workload.randrange(4200)
